@@ -47,3 +47,14 @@ impl IterError {
     pub fn mutually_exclusive_indicies() -> (r: IterError) ensures r.kind == ErrKind::MutuallyExclusiveIndicies { IterError { kind: ErrKind::MutuallyExclusiveIndicies } }
     pub fn into(self) -> (r: RvError) ensures r.kind == self.kind { RvError { kind: self.kind } }
 }
+
+pub struct VfsError { pub kind: ErrKind }
+impl VfsError {
+    // R5: enum-variant constructors with the message payload dropped
+    pub fn InvalidChmod_() -> (r: VfsError) ensures r.kind == ErrKind::InvalidChmod { VfsError { kind: ErrKind::InvalidChmod } }
+    pub fn InvalidChmodGroup_() -> (r: VfsError) ensures r.kind == ErrKind::InvalidChmodGroup { VfsError { kind: ErrKind::InvalidChmodGroup } }
+    pub fn InvalidChmodOp_() -> (r: VfsError) ensures r.kind == ErrKind::InvalidChmodOp { VfsError { kind: ErrKind::InvalidChmodOp } }
+    pub fn InvalidChmodPermissions_() -> (r: VfsError) ensures r.kind == ErrKind::InvalidChmodPermissions { VfsError { kind: ErrKind::InvalidChmodPermissions } }
+    pub fn InvalidChmodTarget_() -> (r: VfsError) ensures r.kind == ErrKind::InvalidChmodTarget { VfsError { kind: ErrKind::InvalidChmodTarget } }
+    pub fn into(self) -> (r: RvError) ensures r.kind == self.kind { RvError { kind: self.kind } }
+}
